@@ -11,7 +11,7 @@ import (
 func init() {
 	register(&Prop{
 		ID: "C09", Level: "exploration",
-		Rule:        "differential: a seeded base history H (several snapshot transactions of different ages, a just-begun transaction that has not read yet, RU/RC readers, overwrites, deletes, commits) is run once per collector position p in 0..|H| with a collector pass + worker-pool drain inserted before step p, once with two consecutive passes at a seeded position, and once with a pass before every step; in every variant every open transaction and the autocommit caller read every key and GetKeys after every step and must equal the reference model, in which the collector does not exist; GetReader streams opened before a pass are read to the end after it. evaluations = reads compared; distinct_nontrivial = distinct (base history, position) variants in which the pass physically removed at least one content file",
+		Rule:        "differential: a seeded base history H (several snapshot transactions of different ages, a just-begun transaction that has not read yet, RU/RC readers, overwrites, deletes, commits) is run once per collector position p in 0..|H| with a collector pass + worker-pool drain inserted before step p, once with two consecutive passes at a seeded position, and once with a pass before every step; in every variant the open transactions and the autocommit caller read every key and GetKeys after every step (probing order per variant: oldest first / youngest first / shuffled / shuffled subset with skipped rounds, since reads themselves touch the registry) and must equal the reference model, in which the collector does not exist; GetReader streams opened before a pass are read to the end after it. evaluations = reads compared; distinct_nontrivial = distinct (base history, position) variants in which the pass physically removed at least one content file",
 		Assumptions: []string{"reference model refmodel (collector = no-op)"},
 		Roles:       map[string]Role{"main": {N: func(t string) int { return tierN(t, 24, 1200) }, Case: c09Case}},
 	})
@@ -62,7 +62,7 @@ func c09Case(tier string, seed int64, idx int, scratch string) rt.CaseResult {
 	for vi, v := range variants {
 		rt.Beat()
 		var vc rt.CaseResult
-		out := runSeq(&vc, scratch, "v", dbx.Options{Mode: dbx.Inline}, v, seqrun.Options{Probe: true, AfterStep: after}, seed)
+		out := runSeq(&vc, scratch, "v", dbx.Options{Mode: dbx.Inline}, v, seqrun.Options{Probe: true, AfterStep: after, ProbeMode: (vi + idx) % 4, ProbeSeed: seed + int64(vi)}, seed)
 		for _, viol := range vc.Violations {
 			viol.Sig += " collector=" + collectorPosClass(names[vi])
 			if m, ok := viol.Replay.(map[string]any); ok {
